@@ -500,7 +500,16 @@ def k_arange(mo, *a, **kw):
 def k_linspace(mo, start, end, steps, **kw):
     n = mo.shape[0]
     out = np.empty((n,), dtype=object)
-    s, e = (x if T.is_sym(x) else Fraction(T._num(x)) if not isinstance(x, float) else T.exact(x) for x in (start, end))
+    def _sc(x):
+        if isinstance(x, np.ndarray):
+            x = x.reshape(-1)[0]
+        if T.is_sym(x):
+            return x
+        if isinstance(x, float):
+            return T.exact(x)
+        return Fraction(T._num(x))
+
+    s, e = _sc(start), _sc(end)
     for i in range(n):
         if n == 1:
             out[i] = s
